@@ -273,10 +273,41 @@ pub fn with_weight_pattern(mut m: Model, pattern: &str) -> Model {
 pub enum Act {
     SplitOwned { r: usize },
     SplitView { r: usize },
-    Shuffle { view: bool, script: Vec<usize> },
-    BootSamples { view: bool, m: usize, items: usize, script: Vec<usize> },
-    BootFeatures { view: bool, q: usize, items: usize, script: Vec<usize> },
-    Boot { view: bool, m: usize, q: usize, script: Vec<usize> },
+    /// `raw: false`: script[k] is the wanted result of the k-th bounded draw; `raw: true`: script[k]
+    /// is the k-th raw 64-bit word the generator hands out (zero words when the script is used up)
+    Shuffle {
+        view: bool,
+        script: Vec<usize>,
+        #[serde(default)]
+        raw: bool,
+    },
+    BootSamples {
+        view: bool,
+        m: usize,
+        items: usize,
+        script: Vec<usize>,
+        #[serde(default)]
+        raw: bool,
+    },
+    BootFeatures {
+        view: bool,
+        q: usize,
+        items: usize,
+        script: Vec<usize>,
+        #[serde(default)]
+        raw: bool,
+    },
+    Boot {
+        view: bool,
+        m: usize,
+        q: usize,
+        script: Vec<usize>,
+        #[serde(default)]
+        raw: bool,
+    },
+    /// bootstrap_samples(2) / bootstrap_features(2) once per index d with the generator answering d
+    /// to every draw: every sample / feature index must be drawn by some run
+    DrawCoverage { view: bool, features: bool },
     WithLabels { view: bool, labels: Vec<usize> },
     OneVsAll { view: bool },
     MapTargets { view: bool },
@@ -310,6 +341,8 @@ impl Act {
             Act::TargetIter { .. } => "target_iter",
             Act::FeatureIter { .. } => "feature_iter",
             Act::Fold { .. } => "fold",
+            Act::DrawCoverage { features: false, .. } => "bootstrap_samples",
+            Act::DrawCoverage { features: true, .. } => "bootstrap_features",
         }
     }
     pub const OPS: [&'static str; 17] = [
@@ -346,6 +379,7 @@ impl Act {
             | Act::SampleIter { view }
             | Act::TargetIter { view }
             | Act::FeatureIter { view }
+            | Act::DrawCoverage { view, .. }
             | Act::Fold { view, .. } => *view,
             _ => false,
         }
@@ -571,20 +605,25 @@ impl Obs {
 // ------------------------------------------------------------------------------------------------
 // scripted random number generator
 
-/// Answers the k-th bounded draw `gen_range(0..range_k)` of rand 0.8 with the scripted value:
-/// rand maps a raw word v to `(v * range) >> bits` (widening multiply, u32 words for slice
-/// shuffling, u64 words for `gen_range` over usize), so v = floor(k * 2^bits / range) + 1 lands in
-/// bucket k and is never rejected. The oracle never relies on this mapping (it only checks the
-/// contract of the operation); whether a script was honoured is measured and reported.
+/// Scripted generator. Bucket mode (`raw: false`) answers the k-th bounded draw
+/// `gen_range(0..range_k)` of rand 0.8 with the scripted value: rand maps a raw word v to
+/// `(v * range) >> bits` (widening multiply, u32 words for slice shuffling, u64 words for
+/// `gen_range` over usize), so v = floor(k * 2^bits / range) + 1 lands in bucket k and is never
+/// rejected. Raw mode hands out the scripted 64-bit words themselves (the high half for a 32-bit
+/// request) and zero words once the script is used up (so rejection loops end).
+/// The oracle does not rely on the bucket formula: the reference indices are computed by running
+/// rand's own `gen_range` / `shuffle` on an identical generator (lock-step).
+#[derive(Clone)]
 pub struct ScriptRng {
-    pub draws: Vec<(usize, usize)>, // (wanted value, range)
+    pub draws: Vec<(usize, usize)>, // bucket mode: (wanted value, range); raw mode: (word, _)
+    pub raw: bool,
     pub cursor: usize,
     pub overrun: bool,
 }
 
 impl ScriptRng {
-    pub fn new(draws: Vec<(usize, usize)>) -> Self {
-        ScriptRng { draws, cursor: 0, overrun: false }
+    pub fn new(draws: Vec<(usize, usize)>, raw: bool) -> Self {
+        ScriptRng { draws, raw, cursor: 0, overrun: false }
     }
     fn next(&mut self) -> Option<(usize, usize)> {
         let d = self.draws.get(self.cursor).cloned();
@@ -602,25 +641,44 @@ impl ScriptRng {
 impl rand::RngCore for ScriptRng {
     fn next_u32(&mut self) -> u32 {
         match self.next() {
+            Some((w, _)) if self.raw => ((w as u64) >> 32) as u32,
             Some((k, range)) if range > 0 => ((((k as u64) << 32) / range as u64) + 1) as u32,
             _ => 0,
         }
     }
     fn next_u64(&mut self) -> u64 {
         match self.next() {
+            Some((w, _)) if self.raw => w as u64,
             Some((k, range)) if range > 0 => ((((k as u128) << 64) / range as u128) + 1) as u64,
             _ => 0,
         }
     }
     fn fill_bytes(&mut self, dest: &mut [u8]) {
-        for b in dest.iter_mut() {
-            *b = 0;
+        for chunk in dest.chunks_mut(8) {
+            let w = self.next_u64().to_le_bytes();
+            chunk.copy_from_slice(&w[..chunk.len()]);
         }
-        self.overrun = true;
     }
     fn try_fill_bytes(&mut self, dest: &mut [u8]) -> Result<(), rand::Error> {
         self.fill_bytes(dest);
         Ok(())
+    }
+}
+
+/// The generator of a scripted action on a dataset of n samples x nf features.
+pub fn script_rng(act: &Act, n: usize, nf: usize) -> ScriptRng {
+    match act {
+        Act::Shuffle { script, raw, .. } => {
+            if *raw {
+                ScriptRng::new(script.iter().map(|&w| (w, 0)).collect(), true)
+            } else {
+                ScriptRng::new(shuffle_draws(n, script), false)
+            }
+        }
+        Act::BootSamples { script, raw, .. } => ScriptRng::new(script.iter().map(|&k| (k, n)).collect(), *raw),
+        Act::BootFeatures { script, raw, .. } => ScriptRng::new(script.iter().map(|&k| (k, nf)).collect(), *raw),
+        Act::Boot { m, script, raw, .. } => ScriptRng::new(script.iter().enumerate().map(|(i, &k)| (k, if i < *m { n } else { nf })).collect(), *raw),
+        _ => ScriptRng::new(vec![], false),
     }
 }
 
